@@ -132,3 +132,51 @@ Example C03_extenders_example :
   run_ok 9000 false hs r [mkPart 100 1000 1] [mkPart 100 1000 1] (firstn 2 walk) /\
   mark 9000 false hs r [mkPart 100 1000 1] [mkPart 100 1000 1] walk = firstn 2 walk.
 Proof. split; [cbn; repeat split; vm_compute; discriminate|vm_compute; reflexivity]. Qed.
+
+(* merge_over_origin.merge_pair (repaired: findings C03-K2 merge_pair_nonforward_wrap and C03-K3
+   merge_pair_uncapped_neighbourhood): whenever two protoclusters of one rule are merged, the merged
+   protocluster keeps the first one's rule, its core is connect_locations of the two cores, and its
+   neighbourhood is what _extend_area_location - the function used for every unmerged protocluster:
+   forward strand, distance capped at (N-len)//2+1 - returns for that core, which never has more than
+   two parts (one on a linear record); the only other shape is the halfway split of a core over the
+   origin whose neighbourhood fills the record: two forward parts [x:N) + [0:y) *)
+Theorem C03_merge_pair_neighbourhood : forall N circular rules a b m,
+  merge_pair N circular rules a b = Ok m ->
+  exists core sur0,
+    connect_locations [p_core a; p_core b] (wrap_of N circular) = Ok core /\
+    extend_area core (r_nb (nth_rule rules (p_rule a))) N circular false = Ok sur0 /\
+    zlen sur0 <= (if circular then 2 else 1) /\
+    p_rule m = p_rule a /\ p_core m = core /\
+    (p_sur m = sur0 \/
+     (bridges core = true /\ llen sur0 = N /\ bridges sur0 = false /\
+      exists x y, p_sur m = [mkPart x N 1; mkPart 0 y 1])).
+Proof. exact merge_pair_area. Qed.
+Print Assumptions C03_merge_pair_neighbourhood.
+
+(* non-vacuity and regression: the merges of the two repaired witnesses (known_findings.json C03-K2: an
+   unstranded joined core whose 10 kb neighbourhood wraps the origin, formerly ValueError; C03-K3: core +
+   2 * neighbourhood >= record length, formerly a three-part location and AssertionError) now succeed *)
+Example C03_merge_pair_repaired_witnesses :
+  let any := C01.Model.Single false 0 in
+  merge_pair 48199 true [mkRule 2000 10000 any None []]
+             (0, [mkPart 2299 8199 S_None], [mkPart 0 18199 1]) (0, [mkPart 2299 8199 S_None], [mkPart 0 18199 1])
+  = Ok (0, [mkPart 2299 8199 S_None], [mkPart 40498 48199 1; mkPart 0 18199 1]) /\
+  merge_pair 7068 true [mkRule 2000 3000 any None []]
+             (0, [mkPart 4169 7068 1; mkPart 0 90 1], [mkPart 0 7068 1]) (0, [mkPart 2091 5069 1], [mkPart 0 7068 1])
+  = Ok (0, [mkPart 2091 7068 1; mkPart 0 90 1], [mkPart 1091 7068 1; mkPart 0 1089 1]).
+Proof. split; vm_compute; reflexivity. Qed.
+
+(* regression (known_findings.json C03-K4 origin_spanning_anchor, repaired): the first/last wrap test of
+   find_protoclusters sees the start of an origin-spanning core in its part before the origin, so the last
+   chain [17000:18000), 1500 < 2000 before the origin-spanning gene [19500:20000)+[0:300), joins its core
+   although the chain [10000:10300) lies between them in coordinate order; a last chain exactly one cutoff
+   away stays separate *)
+Example C03_origin_spanning_chain :
+  let r := mkRule 2000 1000 (C01.Model.Single false 0) None [] in
+  let gs last_start := [(5, [mkPart 19500 20000 1; mkPart 0 300 1]); (0, [mkPart 1000 1300 1]);
+                        (1, [mkPart 10000 10300 1]); (2, [mkPart last_start (last_start + 1000) (-1)])] in
+  rule_cores 20000 true (gs 17000) r [0; 1; 2; 5]
+  = Ok [[mkPart 17000 20000 1; mkPart 0 1300 1]; [mkPart 10000 10300 1]] /\
+  rule_cores 20000 true (gs 16500) r [0; 1; 2; 5]
+  = Ok [[mkPart 19500 20000 1; mkPart 0 1300 1]; [mkPart 10000 10300 1]; [mkPart 16500 17500 (-1)]].
+Proof. split; vm_compute; reflexivity. Qed.
